@@ -7,8 +7,8 @@ theorem rel_next (total : Nat) (w : Watch) (s : St) (h : Rel total w s) :
     ∃ w', watchBasic total w (observeBasic s .next).2 = .ok w' ∧ Rel total w' (observeBasic s .next).1 := by
   obtain ⟨rest, pulled, stopped, lt, futs⟩ := s
   obtain ⟨wr, wf, wk⟩ := w
-  obtain ⟨h1, h2, h3, h4, h5, h6⟩ := h
-  simp only at h1 h2 h3 h4 h5 h6
+  obtain ⟨h1, h2, h3, h4, h5, hnm, h6⟩ := h
+  simp only at h1 h2 h3 h4 h5 hnm h6
   subst h1 h2 h3
   have hbe : ∀ r f, Watch.blocked ⟨r, f, futs.map Fut.known⟩ = blockedBy lt futs :=
     fun _ _ => watch_blocked_eq lt futs h6
@@ -19,7 +19,7 @@ theorem rel_next (total : Nat) (w : Watch) (s : St) (h : Rel total w s) :
         (⟨wr, pulled, wf, lt, futs⟩, ⟨.next, .raised .runtimeError, none, pulled, wf, 0⟩) := by
       simp [observeBasic, stepBasic, next_blocked _ hs]
     rw [ho]
-    refine ⟨⟨wr, wf, futs.map Fut.known⟩, ?_, ⟨rfl, rfl, rfl, h4, h5, h6⟩⟩
+    refine ⟨⟨wr, wf, futs.map Fut.known⟩, ?_, ⟨rfl, rfl, rfl, h4, h5, hnm, h6⟩⟩
     simp [watchBasic, hbe, hb, Res.hasMarker, h4]
   | false =>
     have hnp := noPending_of_unblocked lt futs h6 hb
@@ -30,19 +30,22 @@ theorem rel_next (total : Nat) (w : Watch) (s : St) (h : Rel total w s) :
         cases wf <;> simp [observeBasic, stepBasic, next, send, blocked_eq, hb, getOneValue]
       rw [ho]
       simp only [List.length_nil, Nat.add_zero] at h4
-      refine ⟨⟨[], true, futs.map Fut.known⟩, ?_, ⟨rfl, rfl, rfl, by simpa using h4, by simp, h6⟩⟩
+      refine ⟨⟨[], true, futs.map Fut.known⟩, ?_, ⟨rfl, rfl, rfl, by simpa using h4, by simp, rfl, h6⟩⟩
       simp [watchBasic, hbe, hb, Res.hasMarker, h4]
     | cons x r =>
       have hst : wf = false := by cases wf <;> simp_all
       subst hst
       simp only [List.length_cons] at h4
       cases x with
+      | valueEnd => simp [noMarker] at hnm
       | value v =>
+        have hmr : noMarker r = true := by simpa [noMarker] using hnm
         have ho : observeBasic ⟨.value v :: r, pulled, false, lt, futs⟩ .next =
-            (⟨r, pulled + 1, false, lt, futs ++ [Fut.const v]⟩, ⟨.next, .fut (some v), none, pulled + 1, false, 0⟩) := by
+            (⟨r, pulled + 1, false, lt, futs ++ [Fut.const (.val v)]⟩,
+              ⟨.next, .fut (some (.val v)), none, pulled + 1, false, 0⟩) := by
           simp [observeBasic, stepBasic, next, send, blocked_eq, hb, getOneValue]
         rw [ho]
-        refine ⟨⟨r, false, (futs ++ [Fut.const v]).map Fut.known⟩, ?_, ⟨rfl, rfl, rfl, ?_, by simp, ?_⟩⟩
+        refine ⟨⟨r, false, (futs ++ [Fut.const (.val v)]).map Fut.known⟩, ?_, ⟨rfl, rfl, rfl, ?_, by simp, hmr, ?_⟩⟩
         · have : pulled + 1 + r.length = total := by omega
           simp [watchBasic, hbe, hb, Res.hasMarker, Fut.known, this]
         · show pulled + 1 + r.length = total
@@ -53,12 +56,13 @@ theorem rel_next (total : Nat) (w : Watch) (s : St) (h : Rel total w s) :
           · exact h6 k b hk
           · cases hkk : k - futs.length <;> simp [hkk] at hk
       | await bb =>
+        have hmr : noMarker r = true := by simpa [noMarker] using hnm
         have ho : observeBasic ⟨.await bb :: r, pulled, false, lt, futs⟩ .next =
             (⟨r, pulled + 1, false, some (.handle futs.length), futs ++ [Fut.pending bb]⟩,
               ⟨.next, .fut none, none, pulled + 1, false, 0⟩) := by
           simp [observeBasic, stepBasic, next, send, blocked_eq, hb, getOneValue]
         rw [ho]
-        refine ⟨⟨r, false, (futs ++ [Fut.pending bb]).map Fut.known⟩, ?_, ⟨rfl, rfl, rfl, ?_, by simp, ?_⟩⟩
+        refine ⟨⟨r, false, (futs ++ [Fut.pending bb]).map Fut.known⟩, ?_, ⟨rfl, rfl, rfl, ?_, by simp, hmr, ?_⟩⟩
         · have : pulled + 1 + r.length = total := by omega
           simp [watchBasic, hbe, hb, Res.hasMarker, Fut.known, this]
         · show pulled + 1 + r.length = total
@@ -83,8 +87,8 @@ theorem rel_compute (total : Nat) (w : Watch) (s : St) (k : Nat) (h : Rel total 
     ∃ w', watchBasic total w (observeBasic s (.compute k)).2 = .ok w' ∧ Rel total w' (observeBasic s (.compute k)).1 := by
   obtain ⟨rest, pulled, stopped, lt, futs⟩ := s
   obtain ⟨wr, wf, wk⟩ := w
-  obtain ⟨h1, h2, h3, h4, h5, h6⟩ := h
-  simp only at h1 h2 h3 h4 h5 h6
+  obtain ⟨h1, h2, h3, h4, h5, hnm, h6⟩ := h
+  simp only at h1 h2 h3 h4 h5 hnm h6
   subst h1 h2 h3
   cases hk : futs[k]? with
   | none =>
@@ -92,31 +96,31 @@ theorem rel_compute (total : Nat) (w : Watch) (s : St) (k : Nat) (h : Rel total 
         (⟨wr, pulled, wf, lt, futs⟩, ⟨.compute k, .raised .other, none, pulled, wf, 0⟩) := by
       simp [observeBasic, stepBasic, compute, hk]
     rw [ho]
-    refine ⟨⟨wr, wf, futs.map Fut.known⟩, ?_, ⟨rfl, rfl, rfl, h4, h5, h6⟩⟩
-    simp [watchBasic, Res.hasMarker, hk]
+    refine ⟨⟨wr, wf, futs.map Fut.known⟩, ?_, ⟨rfl, rfl, rfl, h4, h5, hnm, h6⟩⟩
+    simp [watchBasic, Res.hasMarker, hk, h4]
   | some f =>
     cases f with
     | const v =>
       have ho : observeBasic ⟨wr, pulled, wf, lt, futs⟩ (.compute k) =
-          (⟨wr, pulled, wf, lt, futs⟩, ⟨.compute k, .item (.val v), none, pulled, wf, 0⟩) := by
+          (⟨wr, pulled, wf, lt, futs⟩, ⟨.compute k, .item v, none, pulled, wf, 0⟩) := by
         simp [observeBasic, stepBasic, compute, hk]
       rw [ho]
-      refine ⟨⟨wr, wf, futs.map Fut.known⟩, ?_, ⟨rfl, rfl, rfl, h4, h5, h6⟩⟩
+      refine ⟨⟨wr, wf, futs.map Fut.known⟩, ?_, ⟨rfl, rfl, rfl, h4, h5, hnm, h6⟩⟩
       simp [watchBasic, Res.hasMarker, hk, Fut.known, h4]
     | done x =>
       have ho : observeBasic ⟨wr, pulled, wf, lt, futs⟩ (.compute k) =
           (⟨wr, pulled, wf, lt, futs⟩, ⟨.compute k, .item x, none, pulled, wf, 0⟩) := by
         simp [observeBasic, stepBasic, compute, hk]
       rw [ho]
-      refine ⟨⟨wr, wf, futs.map Fut.known⟩, ?_, ⟨rfl, rfl, rfl, h4, h5, h6⟩⟩
+      refine ⟨⟨wr, wf, futs.map Fut.known⟩, ?_, ⟨rfl, rfl, rfl, h4, h5, hnm, h6⟩⟩
       simp [watchBasic, Res.hasMarker, hk, Fut.known, h4]
     | pending pb =>
       have hl := drainRest_length_le wr
       have ho : observeBasic ⟨wr, pulled, wf, lt, futs⟩ (.compute k) =
-          (⟨drainRest wr, pulled + (wr.length - (drainRest wr).length), wf || drainItem wr == .endMarker, lt,
+          (⟨drainRest wr, pulled + (wr.length - (drainRest wr).length), wf || drainStop wr, lt,
               futs.set k (.done (drainItem wr))⟩,
             ⟨.compute k, .item (drainItem wr), none, pulled + (wr.length - (drainRest wr).length),
-              wf || drainItem wr == .endMarker, 0⟩) := by
+              wf || drainStop wr, 0⟩) := by
         simp [observeBasic, stepBasic, compute, hk, sendInner_spec]
       rw [ho]
       have hlast : ∀ (j : Nat) (b : Bool), (futs.set k (Fut.done (drainItem wr)))[j]? = some (Fut.pending b) →
@@ -126,24 +130,30 @@ theorem rel_compute (total : Nat) (w : Watch) (s : St) (k : Nat) (h : Rel total 
         split at hj
         · split at hj <;> simp at hj
         · exact h6 j b hj
-      have hwk : (futs.map Fut.known)[k]? = some none := by simp [hk, Fut.known]
-      rcases skipAwaits_cases wr with h0 | ⟨v, r, h1⟩
+      have hwk : (futs.map Fut.known)[k]? = some (.pending pb) := by simp [hk, Fut.known]
+      rcases skipAwaits_cases' wr hnm with h0 | ⟨v, r, h1⟩
       · have hi : drainItem wr = .endMarker := by simp [drainItem, h0]
         have hr : drainRest wr = [] := by simp [drainRest, h0]
-        simp only [hi, hr, List.length_nil, Nat.sub_zero] at hlast ⊢
-        refine ⟨⟨[], true, (futs.map Fut.known).set k (some .endMarker)⟩, ?_, ⟨rfl, by simp, ?_, ?_, by simp, hlast⟩⟩
+        have hs : drainStop wr = true := by simp [drainStop, h0]
+        simp only [hi, hr, hs, List.length_nil, Nat.sub_zero, Bool.or_true] at hlast ⊢
+        refine ⟨⟨[], true, (futs.map Fut.known).set k (.val .endMarker)⟩, ?_,
+          ⟨rfl, rfl, ?_, ?_, by simp, rfl, hlast⟩⟩
         · simp [watchBasic, Res.hasMarker, hwk, h0, h4]
         · simp [List.map_set, Fut.known]
         · simpa using h4
       · have hi : drainItem wr = .val v := by simp [drainItem, h1]
         have hr : drainRest wr = r := by simp [drainRest, h1]
-        simp only [hi, hr] at hlast hl ⊢
+        have hs : drainStop wr = false := by simp [drainStop, h1]
+        have hmr : noMarker r = true := by
+          have := noMarker_drainRest wr hnm; rwa [hr] at this
+        simp only [hi, hr, hs, Bool.or_false] at hlast hl ⊢
         have hwf : wf = true → r = [] := by
           intro hw
           have := h5 hw
           subst this
           simp [skipAwaits] at h1
-        refine ⟨⟨r, wf, (futs.map Fut.known).set k (some (.val v))⟩, ?_, ⟨rfl, by simp, ?_, ?_, by simpa using hwf, hlast⟩⟩
+        refine ⟨⟨r, wf, (futs.map Fut.known).set k (.val (.val v))⟩, ?_,
+          ⟨rfl, rfl, ?_, ?_, by simpa using hwf, hmr, hlast⟩⟩
         · have : pulled + (wr.length - r.length) + r.length = total := by omega
           simp [watchBasic, Res.hasMarker, hwk, h1, this]
         · simp [List.map_set, Fut.known]
@@ -154,8 +164,8 @@ theorem rel_take (total : Nat) (w : Watch) (s : St) (m : Nat) (h : Rel total w s
     ∃ w', watchBasic total w (observeBasic s (.take (m + 1))).2 = .ok w' ∧ Rel total w' (observeBasic s (.take (m + 1))).1 := by
   obtain ⟨rest, pulled, stopped, lt, futs⟩ := s
   obtain ⟨wr, wf, wk⟩ := w
-  obtain ⟨h1, h2, h3, h4, h5, h6⟩ := h
-  simp only at h1 h2 h3 h4 h5 h6
+  obtain ⟨h1, h2, h3, h4, h5, hnm, h6⟩ := h
+  simp only at h1 h2 h3 h4 h5 hnm h6
   subst h1 h2 h3
   have hbe : ∀ r f, Watch.blocked ⟨r, f, futs.map Fut.known⟩ = blockedBy lt futs :=
     fun _ _ => watch_blocked_eq lt futs h6
@@ -166,11 +176,11 @@ theorem rel_take (total : Nat) (w : Watch) (s : St) (m : Nat) (h : Rel total w s
         (⟨wr, pulled, wf, lt, futs⟩, ⟨.take (m + 1), .raised .runtimeError, none, pulled, wf, 0⟩) := by
       simp [observeBasic, stepBasic, takeFirst_blocked _ _ hs]
     rw [ho]
-    refine ⟨⟨wr, wf, futs.map Fut.known⟩, ?_, ⟨rfl, rfl, rfl, h4, h5, h6⟩⟩
+    refine ⟨⟨wr, wf, futs.map Fut.known⟩, ?_, ⟨rfl, rfl, rfl, h4, h5, hnm, h6⟩⟩
     simp [watchBasic, hbe, hb, Res.hasMarker, h4]
   | false =>
     have hnp := noPending_of_unblocked lt futs h6 hb
-    obtain ⟨lt', p', e, hp, hb'⟩ := takeFirst_spec wr m pulled wf lt futs hb h5
+    obtain ⟨lt', p', e, hp, hb'⟩ := takeFirst_spec wr m pulled wf lt futs hnm hb h5
     have ho : observeBasic ⟨wr, pulled, wf, lt, futs⟩ (.take (m + 1)) =
         (⟨dropValues (m + 1) wr, p', wf || decide ((values wr).length < m + 1), lt', futs⟩,
           ⟨.take (m + 1), .lst (((values wr).take (m + 1)).map .val), none, p',
@@ -186,15 +196,15 @@ theorem rel_take (total : Nat) (w : Watch) (s : St) (m : Nat) (h : Rel total w s
     have hm : Res.hasMarker (.lst (((values wr).map Item.val).take (m + 1))) = false := by
       rw [← List.map_take]; exact hasMarker_vals _
     refine ⟨⟨dropValues (m + 1) wr, wf || decide ((values wr).length < m + 1), futs.map Fut.known⟩, ?_,
-      ⟨rfl, rfl, rfl, hpos, hwf, fun k b hk => absurd hk (hnp k b)⟩⟩
+      ⟨rfl, rfl, rfl, hpos, hwf, noMarker_dropValues (m + 1) wr hnm, fun k b hk => absurd hk (hnp k b)⟩⟩
     simp [watchBasic, hbe, hb, hm, hpos]
 
 theorem rel_list (total : Nat) (w : Watch) (s : St) (h : Rel total w s) :
     ∃ w', watchBasic total w (observeBasic s .list).2 = .ok w' ∧ Rel total w' (observeBasic s .list).1 := by
   obtain ⟨rest, pulled, stopped, lt, futs⟩ := s
   obtain ⟨wr, wf, wk⟩ := w
-  obtain ⟨h1, h2, h3, h4, h5, h6⟩ := h
-  simp only at h1 h2 h3 h4 h5 h6
+  obtain ⟨h1, h2, h3, h4, h5, hnm, h6⟩ := h
+  simp only at h1 h2 h3 h4 h5 hnm h6
   subst h1 h2 h3
   have hbe : ∀ r f, Watch.blocked ⟨r, f, futs.map Fut.known⟩ = blockedBy lt futs :=
     fun _ _ => watch_blocked_eq lt futs h6
@@ -205,11 +215,11 @@ theorem rel_list (total : Nat) (w : Watch) (s : St) (h : Rel total w s) :
         (⟨wr, pulled, wf, lt, futs⟩, ⟨.list, .raised .runtimeError, none, pulled, wf, 0⟩) := by
       simp [observeBasic, stepBasic, listOf_blocked _ hs]
     rw [ho]
-    refine ⟨⟨wr, wf, futs.map Fut.known⟩, ?_, ⟨rfl, rfl, rfl, h4, h5, h6⟩⟩
+    refine ⟨⟨wr, wf, futs.map Fut.known⟩, ?_, ⟨rfl, rfl, rfl, h4, h5, hnm, h6⟩⟩
     simp [watchBasic, hbe, hb, Res.hasMarker, h4]
   | false =>
     have hnp := noPending_of_unblocked lt futs h6 hb
-    obtain ⟨lt', p', e, hp, hb'⟩ := listOf_spec wr pulled wf lt futs hb h5
+    obtain ⟨lt', p', e, hp, hb'⟩ := listOf_spec wr pulled wf lt futs hnm hb h5
     have ho : observeBasic ⟨wr, pulled, wf, lt, futs⟩ .list =
         (⟨[], p', true, lt', futs⟩, ⟨.list, .lst ((values wr).map .val), none, p', true, 0⟩) := by
       simp [observeBasic, stepBasic, e]
@@ -217,7 +227,7 @@ theorem rel_list (total : Nat) (w : Watch) (s : St) (h : Rel total w s) :
     have hpos : p' = total := by omega
     have hm := hasMarker_vals (values wr)
     refine ⟨⟨[], true, futs.map Fut.known⟩, ?_,
-      ⟨rfl, rfl, rfl, by simpa using hpos, by simp, fun k b hk => absurd hk (hnp k b)⟩⟩
+      ⟨rfl, rfl, rfl, by simpa using hpos, by simp, rfl, fun k b hk => absurd hk (hnp k b)⟩⟩
     simp [watchBasic, hbe, hb, hm, hpos]
 
 theorem rel_take_zero (total : Nat) (w : Watch) (s : St) (h : Rel total w s) :
@@ -260,12 +270,12 @@ theorem rel_compute_out (total : Nat) (w : Watch) (s : St) (k : Nat) (b : Bool) 
     Rel total (drainWatch w k).1 (compute s k).1 ∧ (compute s k).2 = .item (drainWatch w k).2 := by
   obtain ⟨rest, pulled, stopped, lt, futs⟩ := s
   obtain ⟨wr, wf, wk⟩ := w
-  obtain ⟨h1, h2, h3, h4, h5, h6⟩ := h
-  simp only at h1 h2 h3 h4 h5 h6 hk
+  obtain ⟨h1, h2, h3, h4, h5, hnm, h6⟩ := h
+  simp only at h1 h2 h3 h4 h5 hnm h6 hk
   subst h1 h2 h3
   have hl := drainRest_length_le wr
   have hc : compute ⟨wr, pulled, wf, lt, futs⟩ k =
-      (⟨drainRest wr, pulled + (wr.length - (drainRest wr).length), wf || drainItem wr == .endMarker, lt,
+      (⟨drainRest wr, pulled + (wr.length - (drainRest wr).length), wf || drainStop wr, lt,
           futs.set k (.done (drainItem wr))⟩, .item (drainItem wr)) := by
     simp [compute, hk, sendInner_spec]
   rw [hc]
@@ -276,22 +286,26 @@ theorem rel_compute_out (total : Nat) (w : Watch) (s : St) (k : Nat) (b : Bool) 
     split at hj
     · split at hj <;> simp at hj
     · exact h6 j b hj
-  rcases skipAwaits_cases wr with h0 | ⟨v, r, h1⟩
+  rcases skipAwaits_cases' wr hnm with h0 | ⟨v, r, h1⟩
   · have hi : drainItem wr = .endMarker := by simp [drainItem, h0]
     have hr : drainRest wr = [] := by simp [drainRest, h0]
-    simp only [hi, hr, List.length_nil, Nat.sub_zero, drainWatch, h0] at hlast ⊢
-    refine ⟨⟨rfl, by simp, ?_, ?_, by simp, hlast⟩, trivial⟩
+    have hs : drainStop wr = true := by simp [drainStop, h0]
+    simp only [hi, hr, hs, List.length_nil, Nat.sub_zero, drainWatch, h0, Bool.or_true] at hlast ⊢
+    refine ⟨⟨rfl, rfl, ?_, ?_, by simp, rfl, hlast⟩, trivial⟩
     · simp [List.map_set, Fut.known]
     · simpa using h4
   · have hi : drainItem wr = .val v := by simp [drainItem, h1]
     have hr : drainRest wr = r := by simp [drainRest, h1]
-    simp only [hi, hr, drainWatch, h1] at hlast hl ⊢
+    have hs : drainStop wr = false := by simp [drainStop, h1]
+    have hmr : noMarker r = true := by
+      have := noMarker_drainRest wr hnm; rwa [hr] at this
+    simp only [hi, hr, hs, drainWatch, h1, Bool.or_false] at hlast hl ⊢
     have hwf : wf = true → r = [] := by
       intro hw
       have := h5 hw
       subst this
       simp [skipAwaits] at h1
-    refine ⟨⟨rfl, by simp, ?_, ?_, by simpa using hwf, hlast⟩, trivial⟩
+    refine ⟨⟨rfl, rfl, ?_, ?_, by simpa using hwf, hmr, hlast⟩, trivial⟩
     · simp [List.map_set, Fut.known]
     · show pulled + (wr.length - r.length) + r.length = total
       omega
@@ -312,10 +326,10 @@ theorem rel_par (total : Nat) (w : Watch) (s : St) (k : Nat) (a : Adv) (h : Rel 
     rw [hk] at hkn
     cases f with
     | const v =>
-      have hkn' : w.known[k]? = some (some (.val v)) := by rw [hkn]; rfl
+      have hkn' : w.known[k]? = some (.val v) := by rw [hkn]; rfl
       obtain ⟨w', hw, hr⟩ := rel_adv total w s a h
       have ho : observe s (.par k a) = ((observeBasic s a.toOp).1,
-          ⟨.par k a, .item (.val v), some (true, (stepBasic s a.toOp).2), (observeBasic s a.toOp).1.pulled,
+          ⟨.par k a, .item v, some (true, (stepBasic s a.toOp).2), (observeBasic s a.toOp).1.pulled,
             (observeBasic s a.toOp).1.stopped, 0⟩) := by
         simp [observe, par, hk, observeBasic]
       rw [ho]
@@ -323,7 +337,7 @@ theorem rel_par (total : Nat) (w : Watch) (s : St) (k : Nat) (a : Adv) (h : Rel 
       simp only [watchStep, hkn']
       simpa [sibObs, observeBasic] using hw
     | done x =>
-      have hkn' : w.known[k]? = some (some x) := by rw [hkn]; rfl
+      have hkn' : w.known[k]? = some (.val x) := by rw [hkn]; rfl
       obtain ⟨w', hw, hr⟩ := rel_adv total w s a h
       have ho : observe s (.par k a) = ((observeBasic s a.toOp).1,
           ⟨.par k a, .item x, some (true, (stepBasic s a.toOp).2), (observeBasic s a.toOp).1.pulled,
@@ -334,17 +348,21 @@ theorem rel_par (total : Nat) (w : Watch) (s : St) (k : Nat) (a : Adv) (h : Rel 
       simp only [watchStep, hkn']
       simpa [sibObs, observeBasic] using hw
     | pending b =>
-      have hkn' : w.known[k]? = some none := by rw [hkn]; rfl
+      have hkn' : w.known[k]? = some (.pending b) := by rw [hkn]; rfl
       obtain ⟨hrel, hitem⟩ := rel_compute_out total w s k b h hk
       have hcp := compute_pending s k b hk
       have hsp := startTask_spec b s.rest s.pulled s.stopped s.lastTask s.futs
       have hs : (⟨s.rest, s.pulled, s.stopped, s.lastTask, s.futs⟩ : St) = s := rfl
       rw [hs] at hsp
+      have hpk := startTask_parks s b
+      rw [← h.rest] at hpk
       cases hst : startTask s b with
       | mk s1 o =>
+        rw [hst] at hpk
         cases o with
         | some x =>
           -- the task is computed before the sibling runs
+          have hparks : (b || leadBlock w.rest) = false := by simpa using hpk.symm
           have hsi := hsp.1 s1 x hst
           have hc1 : (compute s k).1 = { s1 with futs := s1.futs.set k (.done x) } := by rw [hcp, hsi]
           have hc2 : (drainWatch w k).2 = x := by
@@ -359,10 +377,11 @@ theorem rel_par (total : Nat) (w : Watch) (s : St) (k : Nat) (a : Adv) (h : Rel 
             simp [observe, par, hk, hst, observeBasic]
           rw [ho]
           refine ⟨w', ?_, hr⟩
-          simp only [watchStep, hkn']
+          simp only [watchStep, hkn', hparks]
           simpa [sibObs, observeBasic, hc2] using hw
         | none =>
           -- the task has started and is parked: NOT computed, the guard is still armed
+          have hparks : (b || leadBlock w.rest) = true := by simpa using hpk.symm
           obtain ⟨hl1, hf1, hsi⟩ := hsp.2 s1 hst
           have hb1 : s1.blocked = true := by
             simp [St.blocked, hl1, hf1, h.last k b hk, hk]
@@ -377,7 +396,7 @@ theorem rel_par (total : Nat) (w : Watch) (s : St) (k : Nat) (a : Adv) (h : Rel 
             simp [observe, par, hk, hst, hadv, hc1]
           rw [ho]
           refine ⟨(drainWatch w k).1, ?_, hrel⟩
-          simp [watchStep, hkn', hc2, hrel.rest, hrel.fin, hrel.pos]
+          simp [watchStep, hkn', hparks, hc2, hrel.rest, hrel.fin, hrel.pos]
 
 /-- every operation keeps the model inside what the observer accepts -/
 theorem rel_step (total : Nat) (w : Watch) (s : St) (op : Op) (h : Rel total w s) :
@@ -414,3 +433,38 @@ theorem watchRun_ok (total : Nat) (ops : List Op) : ∀ (w : Watch) (s : St), Re
     simp only [run, watchRun]
     rw [h1]
     exact h3
+
+/-- the invariants of `Rel` hold in every state a history reaches -/
+theorem rel_final (total : Nat) (ops : List Op) : ∀ (w : Watch) (s : St), Rel total w s →
+    ∃ w', Rel total w' (finalState s ops) := by
+  induction ops with
+  | nil => intro w s h; exact ⟨w, h⟩
+  | cons op ops ih =>
+    intro w s h
+    obtain ⟨w1, _, h2⟩ := rel_step total w s op h
+    exact ih w1 (observe s op).1 h2
+
+/-- the body after its (m+1)-th Value starts right behind that Value: what `take_first` consumed ends with it -/
+theorem dropValues_split (b : Body) (hm : noMarker b = true) : ∀ m, m < (values b).length →
+    ∃ pre v, b = pre ++ .value v :: dropValues (m + 1) b ∧ (values pre).length = m ∧ (values b)[m]? = some v := by
+  induction b with
+  | nil => intro m h; simp [values] at h
+  | cons x r ih =>
+    intro m h
+    cases x with
+    | valueEnd => simp [noMarker] at hm
+    | await bb =>
+      obtain ⟨pre, v, e, hl, hv⟩ := ih (by simpa [noMarker] using hm) m (by simpa [values] using h)
+      refine ⟨.await bb :: pre, v, ?_, by simpa [values] using hl, by simpa [values] using hv⟩
+      simp only [dropValues, List.cons_append]
+      rw [← e]
+    | value w =>
+      cases m with
+      | zero => exact ⟨[], w, by simp [dropValues], by simp [values], by simp [values]⟩
+      | succ k =>
+        obtain ⟨pre, v, e, hl, hv⟩ := ih (by simpa [noMarker] using hm) k
+          (by simp only [values, List.length_cons] at h; omega)
+        refine ⟨.value w :: pre, v, ?_, by simp [values, hl], by simpa [values] using hv⟩
+        simp only [dropValues, List.cons_append]
+        rw [← e]
+
